@@ -99,6 +99,7 @@ theorem rgbToHsl_bounds (r g b : ℝ) (hr : 0 ≤ r) (hg : 0 ≤ g) (hb : 0 ≤ 
   have hM1 := max_le_one r g b hr1 hg1 hb1
   have hmM : (maxMinSep r g b).min ≤ (maxMinSep r g b).max := le_trans b1 b2
   unfold rgbToHsl
+  simp only [RealScalar.hslSat_eq]   -- the guard `divisor == 0` (c404fc5) is invisible at ℝ; dead on the gamut: `rgbToHsl_divisor_pos`
   -- `RealScalar.invertedSum_eq`: the code's denominator `(1 − max) + (1 − min)` is `2 − (max + min)` at ℝ
   simp only [max0_of_nonneg hr, max0_of_nonneg hg, max0_of_nonneg hb, eqv_iff, RealScalar.invertedSum_eq]
   set M := (maxMinSep r g b).max with hMdef
@@ -141,9 +142,33 @@ theorem rgbToHsl_inverted_sum_pos (r g b : ℝ) (hr : 0 ≤ r) (hg : 0 ≤ g) (h
     have h2 : (0 : ℝ) < 1.0 - (maxMinSep r g b).min := by norm_num; linarith
     exact add_pos_of_nonneg_of_pos h1 h2
   · unfold rgbToHsl
+    simp only [RealScalar.hslSat_eq]   -- the guard `divisor == 0` (c404fc5) is invisible at ℝ; dead on the gamut: `rgbToHsl_divisor_pos`
     simp only [max0_of_nonneg hr, max0_of_nonneg hg, max0_of_nonneg hb, eqv_iff]
     rw [if_pos hne]; simp only
     rw [if_pos (by norm_num; exact hs)]
+
+/-- **the guard of the second repair (palette c404fc5: saturation 0 when the selected divisor is exactly 0) never fires on the
+    gamut**: on the unit cube with `max ≠ min` the divisor the code selects -- `(1 − max) + (1 − min)` for `max + min > 1`
+    (`rgbToHsl_inverted_sum_pos`), `max + min` otherwise -- is strictly positive, in both arms, so every in-gamut colour keeps the
+    saturation it had (`rgbToHsl_bounds` is about the unchanged quotient).  The guard exists for colours *outside* the gamut
+    (`max = 1 + δ`, `min = 1 − δ`: the Rec.2020 image of an sRGB near-white in `f32`, `C07.hsl_divisor_zero_f32`), where the
+    saturation is now 0 instead of `d / 0 = +inf` (`C07.rgbToHsl_sat_defined`, `C07.rgbToHsl_finite_all`). -/
+theorem rgbToHsl_divisor_pos (r g b : ℝ) (hr : 0 ≤ r) (hg : 0 ≤ g) (hb : 0 ≤ b) (hr1 : r ≤ 1) (hg1 : g ≤ 1) (hb1 : b ≤ 1)
+    (hne : (maxMinSep r g b).max ≠ (maxMinSep r g b).min) :
+    0 < (if 1.0 < (maxMinSep r g b).max + (maxMinSep r g b).min
+          then (1.0 - (maxMinSep r g b).max) + (1.0 - (maxMinSep r g b).min)
+          else (maxMinSep r g b).max + (maxMinSep r g b).min) := by
+  obtain ⟨b1, b2, b3, b4, b5, b6⟩ := maxMin_bounds r g b
+  have hmin := min_nonneg r g b hr hg hb
+  have hlt : (maxMinSep r g b).min < (maxMinSep r g b).max := lt_of_le_of_ne (le_trans b1 b2) (Ne.symm hne)
+  split_ifs with hs
+  · exact (rgbToHsl_inverted_sum_pos r g b hr hg hb hr1 hg1 hb1 hne (by norm_num at hs; exact hs)).1
+  · linarith
+
+/-- non-vacuity: `(1, 0.5, 0)`: `max = 1 ≠ 0 = min` (the `max + min ≤ 1` arm; the other arm: next example) -/
+example : (maxMinSep (1 : ℝ) 0.5 0).max ≠ (maxMinSep (1 : ℝ) 0.5 0).min := by
+  obtain ⟨b1, b2, b3, b4, b5, b6⟩ := maxMin_bounds (1 : ℝ) 0.5 0
+  intro e; rw [e] at b2; linarith
 
 /-- non-vacuity: `(1, 1, 0.999)`, next to white: `max = 1`, `min = 0.999`, `max ≠ min`, `max + min = 1.999 > 1` -/
 example : (0 : ℝ) ≤ 1 ∧ (0 : ℝ) ≤ 0.999 ∧ (1 : ℝ) ≤ 1 ∧ (0.999 : ℝ) ≤ 1 ∧
